@@ -1,5 +1,5 @@
 PROP = {
-    "modules": ["IdenaModel.Props.C01", "IdenaModel.Props.C01Epoch", "IdenaModel.Props.C01Shards"],
+    "modules": ["IdenaModel.Props.C01", "IdenaModel.Props.C01Epoch", "IdenaModel.Props.C01Shards", "IdenaModel.Props.C01Balance"],
     "theorems": ["IdenaModel.Determinism." + t for t in [
         "C01_isort_perm", "C01_isort_perm_nodup", "C01_isortDesc_perm", "isort_unique", "isortDesc_unique",
         "commitOps_perm", "precommitOps_perm", "identityPrecommitOps_perm", "root_eq_of_ops_eq", "committee_perm",
@@ -9,12 +9,16 @@ PROP = {
         "nextValidationTime_tz_indep", "epochDays_tz_indep", "nextValidation_fixed_eq_asFound_utc", "nextValidationTime_local_tz_dep",
         "weekday_is_a_weekday", "iterate_sorted_perm", "iterate_order_dependent"]] + ["IdenaModel.CeremonyEpoch." + t for t in [
         "remove_newer", "inv_step", "inv_run", "answers_function_of_chain", "same_chain_same_answers", "as_found_counterexample", "fork_eval_same_content", "fork_eval_as_found_counterexample"]] + ["IdenaModel.Shards." + t for t in [
-        "shardsNum_pos", "shardsNum_grow_bound", "grow_prev", "shrink_pow", "shardsNum_stable"]],
+        "shardsNum_pos", "shardsNum_grow_bound", "grow_prev", "shrink_pow", "shardsNum_stable"]] + ["IdenaModel.ShardBalance." + t for t in [
+        "run_isSome", "distribute_spec", "calls_spec", "relocated_in_range", "unselected_below", "all_in_range", "unselected_keep",
+        "final_count", "counters_exact", "sizes_exact", "sizes_sum", "top_stakes", "top_stakes_sorted", "top_stakes_length",
+        "top_stakes_largest", "topStakes_spec", "top_stakes_only_relocated", "ex_run"]],
     "channels": [
         {"name": "C01census", "exe": "oracle_c01"},
         {"name": "C01time", "exe": "oracle_c01"},
         {"name": "C01order", "exe": "oracle_c01"},
         {"name": "C01shards", "exe": "oracle_c01h"},
+        {"name": "C01balance", "exe": "oracle_c01b"},
         {"name": "C01", "exe": "oracle_c01h", "timeout": {"quick": 1500, "thorough": 14000}},
     ],
     "trusted_base": [
@@ -22,6 +26,7 @@ PROP = {
         "an IAVL root is a function of the tree-operation sequence; byte keys embed order-preservingly into Nat",
         "the source census is syntactic: 154 reviewed sites (map ranges, mapset iterations, sync.Map.Range, clock and zone-sensitive time calls, global rand, host calls, go statements, selects) in 15 consensus-path packages, each classified by hand; guards count sort and .UTC() calls; an unknown site or a removed guard breaks the correspondence",
         "replica differential: generator and follower processes with the real code under different host time zones, clock skew, restarts, reorg-and-return; the virtual clock of the overlay; VRF proofs are randomised so block hashes differ across runs while roots must not",
+        "balanceShards: the three rnd.Perm results are inputs of the model; the harness reproduces them with the same rand.New(rand.NewSource(int64(total))) sequence, taking the slice lengths from its own re-statement of the selection loop (the model recomputes the lengths and answers outside-domain when they differ); sort.Search in appendToTop is read as the least index of a monotone predicate (the slice is descending by top_stakes_sorted)",
         "float32/big.Float accumulation order (F10: totalStakeWeight differs in the last bits between enumerations; never observable in the integer rewards derived from it) and other CPU architectures are outside the model"],
     "assumptions": ["EnvImp.Iterate is a two-level composition; the model covers one level (StateDB level tied by C01order)"],
 }
